@@ -35,7 +35,7 @@ def plan(tier, seed):
         specs.append({"klass": "shape", "i": k, "shape": sh, "n_inter": n})
     for k, f in enumerate(classes.corpus(env.REPO, big=(tier == "thorough"))):
         specs.append({"klass": "corpus", "i": k, "file": os.path.relpath(f, env.REPO), "soft_timeout": 400})
-    n = 400 if tier == "quick" else 6000
+    n = 1500 if tier == "quick" else 8000
     for k in range(n):
         specs.append({"klass": "random", "i": k, "fill": True})
     for s in specs:
@@ -113,6 +113,10 @@ def check_model(text, rng, want=8, tier="quick"):
         rec = mod.call("rhs", pt)
         out["evaluations"] += 1
         if rec.exc is not None:
+            if any(isinstance(res[dn], (E.Undefined, E.Unsupported)) for dn in ref.derivs.values()):
+                cn["raised_at_undefined_point"] = cn.get("raised_at_undefined_point", 0) + 1
+                out["raised_anywhere"] = True
+                continue
             out["violations"].append({"kind": "rhs_raises", "detail": {"exc": f"{type(rec.exc).__name__}: {rec.exc}"[:300], "point": pt}})
             break
         if rec.out.shape != (len(ref.states),):
@@ -145,10 +149,12 @@ def check_model(text, rng, want=8, tier="quick"):
                     "tol": j[2],
                     "symbolic_stage": C.sympy_stage(ode, dn, pt),
                 }
+                detail["root_cause"] = localise(mod, ref, pt, res, dn)
                 v = {"kind": "value", "detail": detail}
                 if first is None or len(out["violations"]) < 6:
                     out["violations"].append(v)
                 first = detail
+    out["_ctx"] = {"ode": ode, "ref": ref, "pts": pts, "sidx": sidx}
     cn["compared"] = compared
     cn["skipped_points"] = skipped
     cn["disagreements"] = bad
@@ -159,6 +165,51 @@ def check_model(text, rng, want=8, tier="quick"):
     return out
 
 
+def localise(mod, ref, pt, res, name):
+    """Deepest name in the dependency closure of `name` whose monitored value already disagrees."""
+    try:
+        rec = mod.call("monitor_values", pt)
+        if rec.exc is not None:
+            return {"monitor_raises": str(rec.exc)[:200]}
+        midx = mod.names("monitor")
+        clo = F.closure_names(ref, name)
+        bad = []
+        for n in clo:
+            if n in midx and C.judge(float(rec.out[midx[n]]), res[n]) not in ("ok", "skip"):
+                bad.append(n)
+        # a root cause is a bad name none of whose dependencies is bad
+        for n in bad:
+            if not any(d in bad for d in ref.deps[n]):
+                return {"name": n, "expr": ref.assigns[n].rhs[:400], "got": float(rec.out[midx[n]]), "expected": float(res[n].v),
+                        "inputs": {d: (pt[d] if d in pt else (float(res[d].v) if d in res and not isinstance(res[d], Exception) else None)) for d in sorted(ref.deps[n])}}
+    except Exception as exc:
+        return {"localise_error": str(exc)[:200]}
+    return None
+
+
+def recheck_fn(cx):
+    """-> callable(module) -> bool: no raise and no disagreement at the case's decidable points."""
+    if not cx.get("pts"):
+        return None
+    ref, pts = cx["ref"], cx["pts"]
+
+    def fn(mod):
+        sidx = mod.names("state")
+        for pt, res, dec in pts:
+            rec = mod.call("rhs", pt)
+            if rec.exc is not None:
+                if any(isinstance(res[dn], (E.Undefined, E.Unsupported)) for dn in ref.derivs.values()):
+                    continue
+                return False
+            for s_, dn in ref.derivs.items():
+                j = C.judge(float(rec.out[sidx[s_]]), res[dn])
+                if j not in ("ok", "skip"):
+                    return False
+        return True
+
+    return fn
+
+
 def run_case(spec, ctx):
     rng = C.rng_for(spec)
     text = case_text(spec, rng)
@@ -166,24 +217,30 @@ def run_case(spec, ctx):
     want = 8 if tier == "quick" else 20
     out = check_model(text, rng, want=want, tier=tier)
     # a packed model that cannot be generated: find the guilty expressions one at a time
-    if spec.get("exprs") and not spec.get("text") and any(v["kind"] in ("codegen_raises", "rhs_raises", "exec_fails") for v in out["violations"]):
+    if spec.get("exprs") and not spec.get("text") and (out.get("raised_anywhere") or any(v["kind"] in ("codegen_raises", "rhs_raises", "exec_fails") for v in out["violations"])):
         vs = []
         ok_compared = 0
         for e in spec["exprs"]:
             sub = check_model(classes.packed_model([e]), C.rng_for(spec, e), want=want, tier=tier)
             out["evaluations"] += sub.get("evaluations", 0)
             ok_compared += sub["counters"].get("compared", 0)
+            scx = sub.pop("_ctx", None) or {}
             for v in sub["violations"]:
                 v["detail"]["expression"] = e
                 v["text"] = classes.packed_model([e])
+                v["_cls"] = {"code": sub.get("code"), "ode": scx.get("ode"), "ref": scx.get("ref"), "recheck": recheck_fn(scx)}
                 vs.append(v)
         out["violations"] = vs
         out["counters"]["compared"] = ok_compared
         out["nontrivial"] = ok_compared >= 2
         out["status"] = "violated" if vs else "held"
     feats = models.features(text)
+    cx = out.pop("_ctx", None) or {}
     for v in out["violations"]:
-        F.classify(ID, v, text=v.get("text", text), features=feats, code=out.get("code"))
+        if v.get("text"):
+            F.classify(ID, v, text=v["text"], features=feats, **v.pop("_cls", {}))
+        else:
+            F.classify(ID, v, text=text, features=feats, code=out.get("code"), ode=cx.get("ode"), ref=cx.get("ref"), recheck=recheck_fn(cx))
     out["hash"] = models.structural_hash(text)
     out["model_text"] = text if (out["violations"] or spec["klass"] != "corpus") else None
     out["counters"]["constructs"] = {**{"f:" + k: v for k, v in feats["funcs"].items()}, **{"op:" + k: v for k, v in feats["ops"].items()}, **feats["bool_arity"]}
